@@ -9,6 +9,9 @@ import SpoxModel.Props.C17
 #print axioms C17.arith_matches
 #print axioms C17.int_closed
 #print axioms C17.expr_matches
+#print axioms C17.scoped_restored
+#print axioms C17.outside_after_blocks
+#print axioms C17.enclosing_after_inner
 #print axioms C17.neg_matches
 #print axioms C17.neg_unsigned_counterexample
 #print axioms C17.floordiv_float_partial
